@@ -42,6 +42,22 @@ props! {
 pub fn helper(cmd: &str, args: &[String]) -> Option<i32> {
     match cmd {
         "c18-child" => Some(c18::child(args.first().map(|s| s.as_str()).unwrap_or("[]"))),
+        // write the seed corpus of a fuzz target into a directory
+        "fuzz-seeds" => {
+            let dir = std::path::Path::new(&args[1]);
+            std::fs::create_dir_all(dir).ok()?;
+            for (i, s) in crate::fuzzing::seeds(&args[0]).iter().enumerate() {
+                std::fs::write(dir.join(format!("seed-{i:04}")), s).ok()?;
+            }
+            Some(0)
+        }
+        // turn a libFuzzer artifact into a replay file for the matching sub-check
+        "fuzz-decode" => {
+            let data = std::fs::read(&args[1]).ok()?;
+            let (p, sub, case) = crate::fuzzing::decode(&args[0], &data)?;
+            println!("{}", serde_json::json!({"property": p, "subcheck": sub, "case": case, "message": format!("libFuzzer artifact {}", args[1])}));
+            Some(0)
+        }
         // development aid: print the reference model's view of a TZif file (validated against CPython's zoneinfo)
         "zone-model-dump" => {
             let bytes = std::fs::read(&args[0]).ok()?;
